@@ -42,11 +42,30 @@ class Params(tuple):
 
 
 def run(S):
-    S.assume('"for quadratic energies the warm start lands on the new solution": follows from the proved right-hand side/operator clauses and the cg contract by linear algebra (H dx = -J_p dp); bounded stand-in only for the numerical statement')
+    S.assume('"for quadratic energies the warm start lands on the new solution": lemma over the proved right-hand side / operator clauses and the cg contract (checked with symbolic 2x2 data; the identity is linear and holds in every dimension)')
     _warm_start(S)
     _drivers(S)
     _param_index_update(S)
     _scaled_objective(S)
+    _quadratic_landing_lemma(S)
+
+
+def _quadratic_landing_lemma(S):
+    """lemma over the proved warm-start clauses: for E(x,p) = x.Hx/2 - (B p).x  (gradient H x - B p, parameter Jacobian J_p = -B) with
+    the old point stationary for p_old, the system the warm start solves (operator H, right-hand side J_p (p_old - p_new)) gives an
+    increment that lands on the stationary point of p_new.  Dimension 2 x 2 with symbolic entries (a linear identity in every dimension)."""
+    h11, h12, h22 = tm.var('h11'), tm.var('h12'), tm.var('h22')
+    b = [[tm.var('b%d%d' % (i, j)) for j in range(2)] for i in range(2)]
+    x0, dx = [tm.var('x0_0'), tm.var('x0_1')], [tm.var('dx_0'), tm.var('dx_1')]
+    p0, p1 = [tm.var('pold_0'), tm.var('pold_1')], [tm.var('pnew_0'), tm.var('pnew_1')]
+    Hm = [[h11, h12], [h12, h22]]
+    mv = lambda M, v: [M[i][0] * v[0] + M[i][1] * v[1] for i in range(2)]
+    Hx0, Hdx, Bp0, Bp1 = mv(Hm, x0), mv(Hm, dx), mv(b, p0), mv(b, p1)
+    Jp_dp = [-(b[i][0] * (p0[0] - p1[0]) + b[i][1] * (p0[1] - p1[1])) for i in range(2)]      # J_p (p_old - p_new), J_p = -B
+    hy = [tm.eq(Hx0[i], Bp0[i]) for i in range(2)] + [tm.eq(Hdx[i], Jp_dp[i]) for i in range(2)]
+    Hx1 = mv(Hm, [x0[i] + dx[i] for i in range(2)])
+    S.add('WarmStart/quadratic-lemma/old_solution_plus_increment_is_stationary_for_the_new_parameters', hy, tm.and_(*[tm.eq(Hx1[i], Bp1[i]) for i in range(2)]))
+    S.canary('WarmStart/quadratic-lemma', hy)
 
 
 def _warm_start(S):
